@@ -3,6 +3,14 @@ import Fabio.Model.C14
 /-!
 C14 — obligations over the facts regenerated from `/repo` on every run.
 
+Only what no stream can establish by running the code is an obligation here: that nothing is remembered between
+two calls of `makeConfig` (a memo keyed by anything but the full current entry shows only on the histories that hit
+it), that `makeConfig` answers whatever a service yields (a skipped send on a failed catalog lookup: the fake never
+fails), and where an iteration of `watchBackend` can end before `route.SetTable` (an exit on `Register`'s error: the
+scripted backend never fails). The statements about the SHAPE of the sequential, deterministic pipeline
+`build → parseURLPrefixTag → denotes` — whose input/output behaviour `c14.build`, `c14.poison`, `c14.history`,
+`c14.watch` and `c14.expand` compare with the model on every run — are change detectors in `Props/C14Pins.lean`.
+
 The extractor (`tools/factgen/c14.go`) works on the *normalised* source (package constants inlined, literal
 concatenations folded, `switch` = if-chain) and on the *inlined* walk from `ServiceMonitor.makeConfig` through
 `serviceConfig`, `routecmd.build` and every unexported helper they call; locals, parameters and receivers are
@@ -17,84 +25,6 @@ open Fabio Fabio.Generated.C14 Fabio.Model.C14
 
 /-- every element of `req` occurs in `l` -/
 def sub (req l : List String) : Bool := req.all (fun s => l.contains s)
-
-/-! ### the option loop of `build` -/
-
-/-- what each option does first: the destination by protocol (no trailing slash), the weight text after
-`weight=`, the redirect value after `redirect=` split on "," — as `Model.C14.optStep` -/
-theorem option_effects :
-    optionEffects = ["_ == \"proto=grpc\" => _ = \"grpc://\" + _", "_ == \"proto=grpcs\" => _ = \"grpcs://\" + _",
-      "_ == \"proto=https\" => _ = \"https://\" + _", "_ == \"proto=tcp\" => _ = \"tcp://\" + _",
-      "strings.HasPrefix(_, \"redirect=\") => _ := strings.Split(strings.TrimPrefix(_, \"redirect=\"), \",\")",
-      "strings.HasPrefix(_, \"weight=\") => _ = strings.TrimPrefix(_, \"weight=\")"] := by decide
-
-/-- the model's keywords are literals of the code -/
-theorem model_keywords :
-    sub [String.ofList kProtoTcp, String.ofList kProtoHttps, String.ofList kProtoGrpcs, String.ofList kProtoGrpc,
-      String.ofList kWeightEq, String.ofList kRedirectEq] pipelineLiterals = true := by decide
-
-/-- the literals of the emitted line (tags and options **raw** between double quotes), the five destination
-schemes, the separators, the `redirect=%s` option, the variable `DC`, the join with "\n" -/
-theorem line_literals :
-    sub ["route add ", " ", " weight ", " tags \"", " opts \"", "\"", ",", "http://", "/", "tcp://", "https://",
-      "grpcs://", "grpc://", "redirect=%s", ":", "=", "DC", "\n", ".local", "darwin"] pipelineLiterals = true := by decide
-
-/-! ### the library calls of the pipeline `makeConfig → serviceConfig → build → parseURLPrefixTag / validation` -/
-
-/-- options are split with `strings.Fields`, tags trimmed with `strings.TrimSpace`, tags joined with ",", options
-with " ", commands with "\n" after a reverse sort; host and port joined by `net.JoinHostPort(_, strconv.Itoa(_))`;
-the redirect value split on ","; `parseURLPrefixTag` trims, splits once at " " and once at "/", tests ":" and "/",
-lower-cases the expanded host and expands with `os.Expand` -/
-theorem pipeline_calls :
-    sub ["strings.Fields(_)", "strings.TrimSpace(_)", "strings.TrimSpace(_[len(_):])", "strings.Join(_, \",\")",
-      "strings.Join(_, \" \")", "strings.Join(_, \"\\n\")", "sort.Sort(sort.Reverse(sort.StringSlice(_)))",
-      "net.JoinHostPort(_, strconv.Itoa(_))", "strings.Split(strings.TrimPrefix(_, \"redirect=\"), \",\")",
-      "fmt.Sprintf(\"redirect=%s\", _[0])", "strings.SplitN(_, \" \", 2)", "strings.SplitN(_, \"/\", 2)",
-      "strings.HasPrefix(_, \":\")", "strings.Contains(_, \"/\")", "strings.HasPrefix(_, _)",
-      "strings.ToLower(_(_))", "os.Expand(_, func)"] pipelineCalls = true := by decide
-
-/-- tags and options are not written with `strconv.Quote` / `%q` (the grammar `"[^"]*"` knows no escapes) -/
-theorem no_go_quoting : goQuotingCalls = [] := by decide
-
-/-- the guards the model mirrors (without polarity): the tag partition and `parseURLPrefixTag`'s prefix test, the
-address fallback / weight clause (`_ == ""`), the redirect arity and the two-way splits (`len(_) == 2`), the
-optional clauses (`len(_) == 0`), `serviceConfig`'s empty-name guard, the darwin-only `.local` suffix (outside the
-model: the harness runs on linux) -/
-theorem pipeline_guards :
-    sub ["strings.HasPrefix(_, _)", "_ == \"\"", "len(_) == 2", "len(_) == 0", "_ == \"\" || len(_) == 0",
-      "strings.HasPrefix(_, \":\")", "strings.Contains(_, \"/\")",
-      "runtime.GOOS == \"darwin\" && !strings.Contains(_, \".\") && !strings.HasSuffix(_, \".local\")",
-      "_ == \"proto=tcp\"", "_ == \"proto=https\"", "_ == \"proto=grpcs\"", "_ == \"proto=grpc\"",
-      "strings.HasPrefix(_, \"weight=\")", "strings.HasPrefix(_, \"redirect=\")"] pipelineConds = true := by decide
-
-/-! ### repair of D19: a command is emitted only if it denotes the route that is meant -/
-
-/-- in `build` (helpers inlined), between the assembly of a command and the append to the result: the weight is
-read with `strconv.ParseFloat`, the command goes through `route.Parse`, the one definition is compared with
-`reflect.DeepEqual`, a table is built with `route.NewTable` — each followed by a conditional exit — and only then
-the command is emitted (`Model.C14.denotes`, `Model.C14.build`) -/
-theorem validation_before_emit :
-    validationOrder = ["call strconv.ParseFloat", "exit", "call route.Parse", "exit", "call reflect.DeepEqual", "exit",
-      "call route.NewTable", "exit", "emit"] := by decide
-
-/-- parser and table each get the command text in a buffer of their own (`route.Parse` drains its buffer), the
-comparison is between the parsed definition and the intended one, the weight is a 64-bit float, the intended
-options are split at the first "=" -/
-theorem validator_calls :
-    sub ["route.Parse(bytes.NewBufferString(_))", "route.NewTable(bytes.NewBufferString(_))",
-      "reflect.DeepEqual(_[0], _)", "strconv.ParseFloat(_, 64)", "strings.SplitN(_, \"=\", 2)"] pipelineCalls = true ∧
-    sub ["len(_) != 1 || !reflect.DeepEqual(_[0], _)", "_ == nil"] pipelineConds = true := by decide
-
-/-! ### `parseURLPrefixTag` -/
-
-/-- its results: not a routing tag / bad syntax; the `:port` and no-slash forms verbatim; host lower-cased and
-expanded, path expanded -/
-theorem parse_tag_returns :
-    parseTagReturns = ["return \"\", \"\", false", "return \"\", \"\", false", "return _, _, true", "return _, _, true",
-      "return strings.ToLower(_(_)) + \"/\" + _(_), _, true"] := by decide
-
-/-- the only variable is `DC` -/
-theorem env_keys : envKeys = ["DC"] := by decide
 
 /-! ### no state between calls (the property quantifies over histories) -/
 
